@@ -6,7 +6,8 @@ strings, item / base-sequence lists, complement links and object sharing checked
  (3) the model's state (`snapshot` op);
 the names and lengths in the snapshot vs the .pil written by the same compile; finishing from the reloaded
 file (subprocess) vs applying the design to the in-memory system.  Histories: 0-5 earlier compiles in the
-saving process (they advance the global anonymous counter)."""
+saving process (they advance the global anonymous counter); in 40 % of the runs one of them left an out.pil / out.save of
+ANOTHER program at the same output names (recompile over existing files)."""
 import json
 import os
 import pickle
@@ -101,6 +102,15 @@ def run(st, tier, seed):
                 fixed_text = "\n".join(lines_) + "\n"
                 res.count("with-fixed-file")
         with core.scratch("pepper_c16_") as d:
+            if rng.random() < 0.4:
+                # one of the earlier compiles of the saving process wrote ANOTHER program's state to the same output names
+                # (a recompile into an existing out.pil / out.save): the files must afterwards hold this compile's state only
+                other = progen.gen_component_bundle(rng, size=rng.choice([2, 5]))
+                impl.compile_bundle(other, "pil", root=os.path.join(d, "earlier"), keep=lambda dd: [
+                    __import__("shutil").copy(os.path.join(dd, "out." + e), os.path.join(d, "out." + e)) for e in ("pil", "save")])
+                __import__("shutil").rmtree(os.path.join(d, "earlier"), ignore_errors=True)
+                if os.path.exists(os.path.join(d, "out.save")):
+                    res.count("recompile-over-existing-save")
             try:
                 out = pipeline.run_pipeline(b, rng, d, fixed_text=fixed_text)
             except pipeline.Stage as e:
